@@ -769,7 +769,8 @@ class Renderer:
                     self.used.setdefault("fixed-inline-doc", set()).add("yes")
             for i, row in enumerate(rows):
                 out.extend(between.get(i, []))
-                if length_limit and self.feat.get("fixed_seqfield", True) and ch.bool(1, 6) and len(row) <= 72:
+                if length_limit and self.feat.get("fixed_seqfield", True) and ch.bool(1, 6) and len(row) <= 72 \
+                        and not row.lstrip().startswith("!"):        # (a comment line has no sequence field: all of it is comment)
                     row = row.ljust(72) + ch.choice(self.feat.get("seq_pool") or ["SEQ00010", "12345678", "x = 1", "abc"])
                     self.used.setdefault("fixed-seqfield", set()).add("yes")
                 out.append(row)
